@@ -6,7 +6,7 @@ C06 driver.  Case lines (REC as in C05: NAME/TYPE/CLS/TTL/RDATA):
   vk NOW KPROOF KEY SIG NAME TYPE ORC REC*     → `ok P TTL|none` | `err P`    (verify_rrset_with_dnskey)
   vkx EXPECT …vk args…                         → the same (external vectors; EXPECT is for the harness)
   begin [ta=ALG:PK,…] [pos=LO:HI] [neg=LO:HI]  → resets the validation cache (ta: trust anchors, harness only)
-  h NOW INST CK KEYS SIG NAME TYPE ORCS REC*   → `fresh|cached|nolookup P ttl… sig P TTL dev=XY` (verify_rrsets via send; nolookup: signer is not the owner's zone, no DNSKEY query is made; X: class outlivesSignature, Y: class sameKeyOtherRdata)
+  h CLOCK INST CK KEYS SIG[|SIG…] NAME TYPE ORCS REC* → `fresh|cached|nolookup P ttl… sig (P TTL)… dev=XY`   (CLOCK: u64 wall clock; ORCS: `ORC|…` per key, `,` between RRSIGs) (verify_rrsets via send; nolookup: signer is not the owner's zone, no DNSKEY query is made; X: class outlivesSignature, Y: class sameKeyOtherRdata)
   hold …same…                                  → the same for the pre-repair cache model (validatePreFix; regression only)
   end
 KEY  = OWNER;FLAGS;ALG;PUBKEYHEX        KEYS = KEY;PROOF|KEY;PROOF|…  (`-` = none)
@@ -120,24 +120,31 @@ def stepCore (s : State) (toks : List String) : State × String :=
     -- (regression only)
     if op != "h" && op != "hold" then (s, "bad-op") else
     let r : Option (State × String) := do
-      let now ← now.toNat?; let inst ← inst.toNat?; let ck ← parseHex ck
-      let keys ← parseKeys keys; let sg ← parseSig sg
+      let clock ← now.toNat?; let inst ← inst.toNat?; let ck ← parseHex ck
+      let keys ← parseKeys keys
+      -- all RRSIGs of the RRset in message order: `SIG|SIG|…`; oracle tables: one `ORC|ORC|…` (per key)
+      -- for each RRSIG, separated by `,`
+      let sigs ← (sg.splitOn "|").mapM parseSig
       let name ← parseName name; let ty ← ty.toNat?
-      let orcs ← if orcs == "-" then some [] else (orcs.splitOn "|").mapM parseOrc
+      let orcs ← if orcs == "-" then some (sigs.map fun _ => [])
+                 else (orcs.splitOn ",").mapM (fun o => (o.splitOn "|").mapM parseOrc)
       let recs ← recs.mapM C05.parseRecord
-      let table := (keys.map (·.1)).zip orcs
-      let oracle : SigOracle := fun k tbs sig =>
-        sig == sg.sig && table.any (fun (k', o) => k' == k && o == some tbs)
-      let req : Request := { ck, dnskeys := keys, rrsig := sg, keyName := name.toLowercase,
-                             keyType := ty, records := recs, now, inst }
+      let ks := keys.map (·.1)
+      let oracle : SigOracle := fun k tbs sigBytes =>
+        (sigs.zip orcs).any fun (sj, os) =>
+          sj.sig == sigBytes && (ks.zip os).any (fun (k', o) => k' == k && o == some tbs)
+      let m : MultiRequest := { ck, dnskeys := keys, rrsigs := sigs, keyName := name.toLowercase,
+                                keyType := ty, records := recs, clock, inst }
+      let (req, idx0) := m.toRequest
       let (c', v, fresh) :=
         if op == "h" then validate oracle s.cfg s.cache req else validatePreFix oracle s.cfg s.cache req
+      let idx := if v.isOk then idx0 else none
       let ttls := " ".intercalate (recs.map fun r => toString (updatedTtl v r.ttl))
-      let sigOut :=
-        if v.isOk then s!"{showProof v.proof} {updatedTtl v sg.ttl}" else s!"N {sg.ttl}"
+      let sigOut := " ".intercalate ((List.range sigs.length).zip sigs |>.map fun (j, sj) =>
+        if idx == some j then s!"{showProof v.proof} {updatedTtl v sj.ttl}" else s!"N {sj.ttl}")
       let dev2 := !fresh && v.proof == .secure && s.past.any (fun r' => sameKeyOtherRdata r' req)
       pure ({ s with cache := c', past := if fresh then req :: s.past else s.past },
-        s!"{if noLookup req then "nolookup" else if fresh then "fresh" else "cached"} {showProof v.proof} {ttls} sig {sigOut} dev={showBool (outlivesSignature req v fresh)}{showBool dev2}")
+        s!"{if idx0.isNone then "nolookup" else if fresh then "fresh" else "cached"} {showProof v.proof} {ttls} sig {sigOut} dev={showBool (outlivesSignature req v fresh)}{showBool dev2}")
     r.getD (s, "bad-op")
   | _ => (s, "bad-op")
 
